@@ -149,6 +149,13 @@ def correspondence(ctx):
         {'src': 'first = input("Q>")\ndef ask():\n    return input("Q>") + "|" + input("Q>")\ndef one():\n    return input("Q>")\n',
          'inputs': ['a', 'b', 'c'], 'calls': [['ask', [], ['x', 'y', 'z']], ['one', []], ['one', []], ['ask', [], []], ['one', [], ['q']]]},
         {'src': 'def ask():\n    return input("Q>")\nprint(ask())\n', 'inputs': ['1', '2', '3'], 'calls': [['ask', []], ['ask', [], ['9']], ['ask', []]]},
+        # the builtin input kept under another name (default arguments) during the run, used by later calls with new queues
+        {'src': 'name = input("Q>")\nprint(name)\ndef pair(ask=input):\n    return ask("Q>") + "," + ask("Q>")\n'
+                'def num(reader=input):\n    return reader("Q>")\ndef plain():\n    return input("Q>")\n',
+         'inputs': ['Ada'], 'calls': [['pair', [], ['red', 'blue']], ['plain', [], ['green']], ['num', [], ['7']], ['pair', [], ['x', 'y']]]},
+        # a function of the learner's own that has the name of a builtin the sandbox replaces: later calls still see the learner's
+        {'src': 'def open(door):\n    return door + " opened"\ndef f(x):\n    return open(x)\nprint(f("back"))\n', 'inputs': [], 'calls': [['f', ["'front'"]], ['f', ["'side'"]]]},
+        {'src': 'def exit(code):\n    return "bye " + str(code)\ndef g(n):\n    return exit(n)\nprint(g(1))\n', 'inputs': [], 'calls': [['g', ['2']]]},
         # carriage returns are characters like any other
         {'src': 'print("progress 1", end="\\r")\nprint("progress 2", end="\\r\\n")\ns = "a\\rb"\nprint(s, len(s))\n', 'inputs': [], 'calls': []},
         {'src': 'def bar(n):\n    print("#" * n, end="\\r")\n    return "x\\r\\ny"\n', 'inputs': [], 'calls': [['bar', ['3']], ['bar', ['1']]]},
